@@ -1,12 +1,13 @@
 #!/bin/sh
 # For `vp run --with-repo -- tools/run_mutants_snap.sh C01 C02 ...`: runs every seeded change of the named
-# properties through that property's quick check, against the run's own snapshot of /repo ($VP_RUN_REPO), so
+# properties (C01) or single changes (C01-8) through that property's quick check, against the run's own snapshot of /repo ($VP_RUN_REPO), so
 # that /repo itself is never touched.  One summary line per change on stdout (same format as seeded/results.txt).
 V=$(pwd); R=${VP_RUN_REPO:?needs --with-repo}
 export VERIF_REPO="$R"
 (cd lean && lake build Beeb beebdrv) >/dev/null 2>&1
-for pid in "$@"; do
-  for d in /verif/seeded/$pid-*/; do
+for arg in "$@"; do
+  case "$arg" in *-*) pid=${arg%-*}; pat="$arg" ;; *) pid=$arg; pat="$arg-*" ;; esac
+  for d in /verif/seeded/$pat/; do
     [ -f "$d/patch.diff" ] || continue
     m=$(basename "$d")
     git -C "$R" apply "$d/patch.diff" || { echo "$m verdict=PATCH-DOES-NOT-APPLY violations=0 no_input=0 :: "; continue; }
